@@ -249,6 +249,7 @@ template <typename K>
 auto a_shift_right(Case const& c) -> std::string
 {
     if (c.n < 0) { return SKIP; }
+    if (c.n == 0 && known("C06.shift_right.n0")) { return SKIP; } // exclusion class: zero shift (return value)
     V a = mk(c.a, 0);
     auto rs = static_cast<int>(std::shift_right(a.begin(), a.end(), c.n) - a.begin());
     bool noop = c.n == 0 || c.n >= len(c);
